@@ -52,6 +52,8 @@ def worker_env(hashseed, logpath):
 
 
 class Worker:
+    t_first_ready = None  # the session budget starts when the first interpreter has imported TensorFlow
+
     def __init__(self, idx, hashseed, logdir):
         self.idx = idx
         self.hashseed = hashseed
@@ -69,9 +71,11 @@ class Worker:
             text=True,
             bufsize=1,
         )
-        msg = self._readline(300)
+        msg = self._readline(600)
         if not msg or not msg.get("ready"):
             raise RuntimeError("worker %d failed to start: %r\n%s" % (self.idx, msg, self.logtail()))
+        if Worker.t_first_ready is None:
+            Worker.t_first_ready = time.monotonic()
 
     def _readline(self, timeout):
         fd = self.proc.stdout
@@ -193,7 +197,7 @@ class Pool:
                         job = free_q.get_nowait()
                     except queue.Empty:
                         return
-                if deadline is not None and time.monotonic() > deadline:
+                if deadline is not None and Worker.t_first_ready is not None and time.monotonic() > Worker.t_first_ready + deadline:
                     res = {"id": job["id"], "status": "skipped"}
                 else:
                     try:
@@ -421,7 +425,7 @@ def run_check(prop, tier, seed, workers, replay=None, budget=None, extra=None):
     assign_hashseeds(plan, jobs, prop)
     timeout = plan.get("timeout", 120)
     budget_s = budget or plan.get("budget_s")
-    deadline = (time.monotonic() + budget_s) if budget_s else None
+    deadline = budget_s if budget_s else None  # seconds after the first worker is ready (cold TF import is not session time)
     nworkers = min(workers, max(1, len(jobs)))
     pool = Pool(nworkers, hashseeds=plan.get("hashseeds"))
     rc = 0
